@@ -100,6 +100,9 @@ func decorate(t *rapid.T, ring []pt, label string) []pt {
 
 func genPolygon(t *rapid.T, c pt, r int64, label string) [][]pt {
 	n := rapid.IntRange(4, 10).Draw(t, label+"n")
+	if r >= 4000 && rapid.IntRange(0, 29).Draw(t, label+"long") == 0 {
+		n = rapid.IntRange(60, 300).Draw(t, label+"nlong")
+	}
 	shell := star(t, c, r, n, label+"shell")
 	if rapid.IntRange(0, 2).Draw(t, label+"rect") == 0 {
 		// axis-parallel rectangle with collinear vertices on its edges: the highest
@@ -133,6 +136,9 @@ func genCase(t *rapid.T) Case {
 	case "points":
 		c.Mode = "points"
 		n := rapid.IntRange(1, 50).Draw(t, "n")
+		if rapid.IntRange(0, 29).Draw(t, "long") == 0 {
+			n = rapid.IntRange(60, 300).Draw(t, "nlong")
+		}
 		var ps []pt
 		for i := 0; i < n; i++ {
 			p := pt{off[0] + rapid.Int64Range(-100000, 100000).Draw(t, "x"), off[1] + rapid.Int64Range(-100000, 100000).Draw(t, "y")}
@@ -148,6 +154,9 @@ func genCase(t *rapid.T) Case {
 		total := int64(0)
 		for i := 0; i < nl; i++ {
 			n := rapid.IntRange(0, 8).Draw(t, "n")
+			if rapid.IntRange(0, 39).Draw(t, "long") == 0 {
+				n = rapid.IntRange(60, 300).Draw(t, "nlong")
+			}
 			var ps []pt
 			for j := 0; j < n; j++ {
 				p := pt{off[0] + rapid.Int64Range(-100000, 100000).Draw(t, "x"), off[1] + rapid.Int64Range(-100000, 100000).Draw(t, "y")}
@@ -181,7 +190,11 @@ func genCase(t *rapid.T) Case {
 	case "ring":
 		c.Mode, c.Class = "polygons", "single-ring"
 		r := rapid.Int64Range(2, 50000).Draw(t, "r")
-		c.Polys = [][][]pt{{decorate(t, star(t, off, r, rapid.IntRange(3, 12).Draw(t, "n"), "ring"), "ring")}}
+		n := rapid.IntRange(3, 12).Draw(t, "n")
+		if r >= 4000 && rapid.IntRange(0, 9).Draw(t, "long") == 0 {
+			n = rapid.IntRange(60, 300).Draw(t, "nlong") // arc step 2*pi*r/n >= 80 grid units
+		}
+		c.Polys = [][][]pt{{decorate(t, star(t, off, r, n, "ring"), "ring")}}
 	default:
 		c.Mode = "polygons"
 		np := rapid.IntRange(1, 3).Draw(t, "np")
@@ -543,6 +556,18 @@ func classify(c Case) ([]string, bool) {
 	cl := []string{"mode:" + c.Mode}
 	if c.Class != "" {
 		cl = append(cl, "class:"+c.Class)
+	}
+	long := false
+	for _, r := range c.Rings {
+		long = long || len(r) >= 60
+	}
+	for _, p := range c.Polys {
+		for _, r := range p {
+			long = long || len(r) >= 60
+		}
+	}
+	if long {
+		cl = append(cl, "long(>=60 vertices)")
 	}
 	switch c.Mode {
 	case "polygons":
